@@ -143,6 +143,10 @@ fn run_behaviour<T: Sc>(idx: usize, h: &HiLine, par: bool, rep: &mut Report) {
                 // C03 / C09: no Jacobian when a derivative fails or nothing is cached; never a partial one
                 let p = if st.g >= 0 || st.cache == 0 { "C09" } else { "C03" };
                 rep.check(p, j.is_some() == expect_present, 0.0, || det("jacobian presence"));
+                if st.g >= 0 && st.cache != 0 {
+                    // (C03 states it as well: a failing derivative gives no Jacobian, not a partially filled one)
+                    rep.check("C03", j.is_none(), 0.0, || det("a Jacobian is produced although a partial derivative fails to evaluate (partially filled)"));
+                }
                 // whatever is handed out consists of computed values (under a poisoning allocator an
                 // element that was never written shows the fill pattern: C10)
                 if let Some(jm) = &j {
